@@ -236,6 +236,11 @@ def main(argv=None):
     sys.path.insert(0, HERE)
     from . import env
     env.ensure_deps()
+    global EVID, REPLAY_DIR
+    if env.repo_path() != os.path.realpath('/repo'):
+        # a scratch tree (mutant self-test): never overwrite the evidence of the real tree
+        EVID = os.path.join(HERE, 'evidence', '.scratch')
+        REPLAY_DIR = os.path.join(EVID, 'replay')
     mod = load_module(args.prop)
     watchdog, soft = budgets(mod, args.tier)
     nsh = 1 if args.replay else max(1, int(mod.shards(args.tier)))
